@@ -800,6 +800,25 @@ pub fn run(tier: &str, seed: u64, out: &mut Out) {
                 );
             }
         }
+        // reload oracle: every stored node type must be the one type inference re-derives when the
+        // context is rebuilt from its serialized form (catches stale entries of the type cache)
+        for c in h.w.ctxs.iter() {
+            if let Ok(text) = serde_json::to_string(c) {
+                if let Ok(c2) = serde_json::from_str::<Context>(&text) {
+                    'outer: for (g1, g2) in c.get_graphs().iter().zip(c2.get_graphs().iter()) {
+                        for (n1, n2) in g1.get_nodes().iter().zip(g2.get_nodes().iter()) {
+                            if let (Ok(t1), Ok(t2)) = (n1.get_type(), n2.get_type()) {
+                                if t1 != t2 {
+                                    h.viol.push(("stored-type-differs-from-reinferred".to_string(), format!("node ({},{}) {}: stored {} but a reload infers {}", g1.get_id(), n1.get_id(), n1.get_operation(), t1, t2)));
+                                    break 'outer;
+                                }
+                            }
+                        }
+                    }
+                    out.oracle_ok();
+                }
+            }
+        }
         let mut seen = HashSet::new();
         for (class, detail) in h.viol.iter() {
             if seen.insert(class.clone()) {
